@@ -5,6 +5,7 @@ undo the change. Prints one line per check: caught / missed."""
 import subprocess, sys, os, json
 args = sys.argv[1:]
 tier = "quick"
+if "--keep" in args: args.remove("--keep")
 if "--tier" in args:
     i = args.index("--tier"); tier = args[i+1]; del args[i:i+2]
 patch, ids = os.path.abspath(args[0]), args[1:]
@@ -25,6 +26,14 @@ else:
     sh(f"git -C /repo archive HEAD | tar -x -C {R}")
     sh(f"cd {R} && git init -q && git add -A && git -c user.email=a@b -c user.name=x commit -qm base")
     env["VERIF_REPO"] = R
+# the checks run from a private copy of /verif (its own Generated/*.lean, work/ and evidence/), so that several of
+# these runs - and the committed evidence in /verif - do not disturb each other;  --in-verif runs them in place
+V = "/verif"
+if "--in-verif" in ids:
+    ids.remove("--in-verif")
+else:
+    V = tempfile.mkdtemp(prefix="verif_iso_", dir="/tmp")
+    sh(f"rsync -a --exclude .git --exclude work --exclude seeded /verif/ {V}/")
 rc, out = sh(["git", "-C", R, "apply", patch])
 if rc: sys.exit("patch does not apply: " + out)
 res = {}
@@ -33,7 +42,7 @@ try:
     rc2, out2 = sh("go test -vet=off -count=1 ./...", cwd=R)
     print("build+tests:", "pass" if rc2 == 0 else "FAIL\n" + out2[-1500:])
     for cid in ids:
-        rc, out = sh(["./check", cid, "--tier", tier], cwd="/verif")
+        rc, out = sh(["./check", cid, "--tier", tier], cwd=V)
         v = [l for l in out.splitlines() if l.startswith("VIOLATION")]
         res[cid] = {"exit": rc, "violation": v[:1], "tail": out.splitlines()[-1:]}
         print(f"{cid}: {'CAUGHT' if rc == 1 and v else 'missed'}  {v[0] if v else ''}  {out.splitlines()[-1] if out.splitlines() else ''}")
@@ -44,4 +53,7 @@ finally:
         if st: print("WARNING: /repo not clean after revert:", st)
     else:
         shutil.rmtree(R, ignore_errors=True)
+    if V != "/verif":
+        if "--keep" in sys.argv: print("kept", V)
+        else: shutil.rmtree(V, ignore_errors=True)
 print(json.dumps(res))
